@@ -1,6 +1,6 @@
 (* C20 - What `log tail` prints reassembles to each task's log, within its filters. *)
 From Coq Require Import List Arith NArith Bool String.
-From MR Require Import Lib.Bytes Lib.Val Model.Reader Model.Filter Proofs.ReaderProof Proofs.FilterProof.
+From MR Require Import Lib.Bytes Lib.Val Model.Reader Model.Filter Model.TaskJoin Proofs.ReaderProof Proofs.FilterProof.
 Import ListNotations.
 Open Scope string_scope.
 
@@ -52,5 +52,31 @@ Example C20_filter_nonvacuous :
   option_map out (nth_error (readers m) 1) = Some line.
 Proof. vm_compute. repeat split. Qed.
 
+(* cancellation (a sibling failed): both readers of a task make their final flush - to the compressor, then to the stream - and the
+   task ends with an error.  Whatever the interleaving of the two flushes and of the polls of the task, when the task has completed no
+   reader is left with lines that went to the stored log but not to the stream. *)
+Definition C20_cancel_statement (jrun : list jchoice -> tjoin) : Prop :=
+  forall cs, completed (jrun cs) = true -> torn (r0 (jrun cs)) = false /\ torn (r1 (jrun cs)) = false.
+
+Theorem C20_cancel_holds : C20_cancel_statement (jrun true).
+Proof.
+  intros cs. unfold jrun.
+  assert (H : forall s, (completed s = true -> is_done (r0 s) = true /\ is_done (r1 s) = true) ->
+              completed (fold_left (jstep true) cs s) = true ->
+              is_done (r0 (fold_left (jstep true) cs s)) = true /\ is_done (r1 (fold_left (jstep true) cs s)) = true).
+  { induction cs as [|c cs IH]; intros s Hs; simpl; [exact Hs|]. apply IH.
+    unfold jstep. destruct (completed s) eqn:Ec; [intros _; apply Hs; reflexivity|]. destruct c as [[|]|]; simpl; try discriminate.
+    intros Hr. apply andb_true_iff in Hr. exact Hr. }
+  intros Hc. destruct (H jinit (fun E => ltac:(discriminate E)) Hc) as [H0 H1].
+  unfold torn. destruct (r0 (fold_left (jstep true) cs jinit)); try discriminate;
+  destruct (r1 (fold_left (jstep true) cs jinit)); try discriminate; auto.
+Qed.
+
+Example C20_cancel_nonvacuous :
+  let s := jrun true [Adv false; Adv false; PollTask; Adv true; PollTask; Adv true; PollTask] in
+  completed s = true /\ r0 s = FDone /\ r1 s = FDone.
+Proof. vm_compute. auto. Qed.
+
 Print Assumptions C20_holds.
 Print Assumptions C20_filter_holds.
+Print Assumptions C20_cancel_holds.
